@@ -422,7 +422,7 @@ func checkC05(c *Ctx) {
 	c.Rule("R9", "connection objects are not recycled: no value of a type implementing net.Conn is put into a sync.Pool (its other holders - the opposite direction, the deferred Close calls - would act on an unrelated session)")
 	checkNoPooledConn(c, "R9")
 	c.Rule("R8", "a session is bound to the host it is connected to (shared with C06.R1/R5): the host whose removal closes the session, and whose counters it changes, is the host every dial of the session goes to - otherwise removing another host cuts a healthy stream in the middle")
-	c.withAlias(map[string]string{"R1": "R8", "R5": "R8", "R2": "", "R3": "", "R4": "", "R6": "", "R7": "", "R8": "", "R9": "", "R10": "", "R11": "", "R12": ""}, func() { checkC06(c) })
+	c.withAlias(map[string]string{"R1": "R8", "R5": "R8", "R2": "", "R3": "", "R4": "", "R6": "", "R7": "", "R8": "", "R9": "", "R10": "", "R11": "", "R12": "", "R13": ""}, func() { checkC06(c) })
 }
 
 // cellKey resolves a connection value through single-assignment local cells / captured variables by name.
